@@ -9,7 +9,7 @@
    over ALL node lists (any length: the batched path beyond 50 nodes is part of
    [assignments]), all metric maps and all scheduler lists. *)
 From Coq Require Import ZArith List Bool QArith Sorted.
-From V Require Import C17.Model C17.Laws C17.Lemmas C17.LawLemmas.
+From V Require Import C17.Model C17.Laws C17.Lemmas C17.LawLemmas C17.PublishLemmas C17.ConfigLemmas.
 Import ListNotations.
 Open Scope Z_scope.
 
@@ -81,14 +81,52 @@ Theorem C17_shard_bounded : forall nodes m specs res s l mn mx,
 Proof. exact shard_bounded. Qed.
 Print Assumptions C17_shard_bounded.
 
-(* the deprecated scheduler-level maxNodes caps the shard whenever the chain has no node-limit entry of its own *)
+(* clauses 2 and 3 against the CONFIGURATION: for every accepted configuration
+   (ParseShardingConfig after fix 4209844 also rejects chains that cannot be
+   initialised and repeated scheduler names), every policy entry of a scheduler's
+   configured chain — explicit, or synthesized by applyPolicyDefaults — is in
+   the chain the manager runs for it ... *)
+Theorem C17_configured_policy_in_chain : forall specs sp p,
+  valid_config specs = true -> In sp specs -> In p (apply_defaults sp) ->
+  exists rp, init_policy (to_ref p) = Some rp /\ In rp (chain_of specs (ss_name sp)).
+Proof. exact configured_policy_in_chain. Qed.
+Print Assumptions C17_configured_policy_in_chain.
+
+(* ... so every configured node-limit entry caps the shard, for every cluster size ... *)
+Theorem C17_shard_bounded_config : forall nodes m specs res sp p l,
+  assignments nodes m specs = Some res -> In sp specs ->
+  In p (apply_defaults sp) -> ps_name p = P_LIMIT -> 0 < arg_or (ps_args p) 4 0 ->
+  In (ss_name sp, l) res -> Z.of_nat (length l) <= arg_or (ps_args p) 4 0.
+Proof. exact shard_bounded_config. Qed.
+Print Assumptions C17_shard_bounded_config.
+
+(* ... every configured allocation-rate entry is passed by every node of the shard ... *)
+Theorem C17_shard_eligible_config : forall nodes m specs res sp p l x,
+  assignments nodes m specs = Some res -> In sp specs ->
+  In p (apply_defaults sp) -> ps_name p = P_ALLOC ->
+  In (ss_name sp, l) res -> In x l ->
+  exists n, In n nodes /\ nname n = x /\
+    alloc_filter (mlookup m) (round_util (arg_or (ps_args p) 1 0)) (round_util (arg_or (ps_args p) 2 0)) n = true.
+Proof. exact shard_eligible_config. Qed.
+Print Assumptions C17_shard_eligible_config.
+
+(* ... and the deprecated scheduler-level maxNodes caps the shard whenever the chain has no node-limit entry of its own *)
 Theorem C17_legacy_max_nodes_bound : forall nodes m specs res sp l,
-  assignments nodes m specs = Some res ->
-  NoDup (map ss_name specs) -> all_init specs ->
-  In sp specs -> has_policy (ss_policies sp) P_LIMIT = false -> 0 < ss_maxn sp ->
+  assignments nodes m specs = Some res -> In sp specs ->
+  has_policy (ss_policies sp) P_LIMIT = false -> 0 < ss_maxn sp ->
   In (ss_name sp, l) res -> Z.of_nat (length l) <= ss_maxn sp.
-Proof. exact legacy_max_nodes_bound. Qed.
+Proof. exact legacy_max_nodes_bound_config. Qed.
 Print Assumptions C17_legacy_max_nodes_bound.
+
+(* before the fix such a configuration was accepted and run with an EMPTY chain *)
+Theorem C17_uninitialisable_chain_refuted :
+  valid_specs [bad_chain_spec] = true /\
+  chain_of [bad_chain_spec] 1 = [] /\
+  final_map (st_results (calc nname (plain_nodes 5) (manager_chains (mlookup []) [bad_chain_spec])))
+    = [(1, [1; 2; 3; 4; 5]%positive)] /\
+  assignments (plain_nodes 5) [] [bad_chain_spec] = None.
+Proof. exact uninitialisable_chain_refuted. Qed.
+Print Assumptions C17_uninitialisable_chain_refuted.
 
 (* every assigned node exists and passed all filter policies of its scheduler *)
 Theorem C17_shard_eligible : forall nodes m specs res s l x,
@@ -97,27 +135,6 @@ Theorem C17_shard_eligible : forall nodes m specs res s l x,
     forall w lo hi, In (RAlloc w lo hi) (chain_of specs s) -> alloc_filter (mlookup m) lo hi n = true.
 Proof. exact shard_eligible. Qed.
 Print Assumptions C17_shard_eligible.
-
-(* nodes are taken in descending weighted-score order: the shard is a prefix of
-   the unassigned eligible nodes in stable descending score order *)
-Theorem C17_shard_order : forall nodes m specs res s l,
-  assignments nodes m specs = Some res -> In (s, l) res ->
-  exists assigned cand,
-    l = map nname cand /\
-    is_prefix cand
-      (sort_desc (total_score (mlookup m) (chain_of specs s))
-         (filter (pass_all (filters_of (mlookup m) (chain_of specs s))) (drop_assigned nname nodes assigned))) /\
-    StronglySorted (ge_sc (total_score (mlookup m) (chain_of specs s))) cand.
-Proof. exact shard_order. Qed.
-Print Assumptions C17_shard_order.
-
-(* identical inputs, identical assignments: the result depends on the metrics
-   only through lookups by node name, not on the order the provider lists them *)
-Theorem C17_deterministic : forall nodes m m' specs,
-  (forall k, mlookup m k = mlookup m' k) ->
-  assignments nodes m specs = assignments nodes m' specs.
-Proof. exact assignments_metrics_order. Qed.
-Print Assumptions C17_deterministic.
 
 (* --- the executable laws run on the Go results are these statements --- *)
 Theorem C17_law_disjoint_model : forall nodes m specs res,
@@ -163,6 +180,77 @@ Theorem C17_law_order_tol_model : forall nodes m specs res,
 Proof. exact law_order_tol_model. Qed.
 Print Assumptions C17_law_order_tol_model.
 
+(* what acceptance by the laws MEANS on any result (e.g. a Go result), as Props *)
+Theorem C17_law_eligible_sound : forall nodes m specs (r : result) s l x,
+  law_eligible nodes m specs r = true -> In (s, l) r -> In x l ->
+  exists n, In n nodes /\ nname n = x /\ pass_all (filters_of (mlookup m) (chain_of specs s)) n = true.
+Proof. exact law_eligible_sound. Qed.
+Print Assumptions C17_law_eligible_sound.
+
+(* laws 104 / 106 / 108 = the per-scheduler check for EVERY scheduler, against the
+   nodes the result itself gives to the schedulers before it (distinct names) ... *)
+Theorem C17_per_sched_sound : forall ok nodes m specs (r : result) pre sp post,
+  per_sched ok nodes m specs r = true ->
+  NoDup (map nname nodes) -> NoDup (map ss_name specs) -> specs = pre ++ sp :: post ->
+  ok (mlookup m) (chain_of specs (ss_name sp)) (indexed nodes) (taken_from r pre []) (rlookup r (ss_name sp)) = true.
+Proof. exact per_sched_sound. Qed.
+Print Assumptions C17_per_sched_sound.
+
+(* ... where the check of law 104 says: consecutive picks in (score desc, list
+   position) order and every eligible node left behind after the last pick *)
+Theorem C17_sched_order_ok_sound : forall look ch inodes taken l,
+  sched_order_ok look ch inodes taken l = true ->
+  exists tl, find_all inodes l = Some tl /\
+    chain_ok (total_score look ch) tl = true /\
+    forall y t p, rev tl = y :: t -> In p (eligible_of look ch inodes taken) ->
+      ~ In (nname (snd p)) l -> precedes (total_score look ch) y p = true.
+Proof. exact sched_order_ok_sound. Qed.
+Print Assumptions C17_sched_order_ok_sound.
+
+(* ... of law 106: only eligible unassigned nodes, exactly min(caps, how many there are) of them *)
+Theorem C17_sched_count_ok_sound : forall look ch inodes taken l,
+  sched_count_ok look ch inodes taken l = true ->
+  (forall x, In x l -> exists p, In p (eligible_of look ch inodes taken) /\ nname (snd p) = x) /\
+  Z.of_nat (length l) = min_cap ch (Z.of_nat (length (eligible_of look ch inodes taken))).
+Proof. exact sched_count_ok_sound. Qed.
+Print Assumptions C17_sched_count_ok_sound.
+
+(* ... of law 108: the same order up to the tolerance, every pick against every node left behind *)
+Theorem C17_sched_order_tol_ok_sound : forall look ch inodes taken l,
+  sched_order_tol_ok look ch inodes taken l = true ->
+  exists tl, find_all inodes l = Some tl /\
+    chain_ok_tol look (total_score look ch) tl = true /\
+    forall y p, In y tl -> In p (eligible_of look ch inodes taken) -> ~ In (nname (snd p)) l ->
+      precedes_tol look (total_score look ch) y p = true.
+Proof. exact sched_order_tol_ok_sound. Qed.
+Print Assumptions C17_sched_order_tol_ok_sound.
+
+(* laws 112 / 113 (bound / eligibility against the configured entries): accept the model, and mean the clause *)
+Theorem C17_law_bounded_config_model : forall nodes m specs res,
+  assignments nodes m specs = Some res -> law_bounded_config specs res = true.
+Proof. exact law_bounded_config_model. Qed.
+Print Assumptions C17_law_bounded_config_model.
+
+Theorem C17_law_bounded_config_sound : forall specs (r : result) sp p,
+  law_bounded_config specs r = true -> In sp specs -> In p (apply_defaults sp) ->
+  ps_name p = P_LIMIT -> 0 < arg_or (ps_args p) 4 0 ->
+  Z.of_nat (length (rlookup r (ss_name sp))) <= arg_or (ps_args p) 4 0.
+Proof. exact law_bounded_config_sound. Qed.
+Print Assumptions C17_law_bounded_config_sound.
+
+Theorem C17_law_eligible_config_model : forall nodes m specs res,
+  assignments nodes m specs = Some res -> law_eligible_config nodes m specs res = true.
+Proof. exact law_eligible_config_model. Qed.
+Print Assumptions C17_law_eligible_config_model.
+
+Theorem C17_law_eligible_config_sound : forall nodes m specs (r : result) sp p x,
+  law_eligible_config nodes m specs r = true -> In sp specs -> In p (apply_defaults sp) ->
+  ps_name p = P_ALLOC -> In x (rlookup r (ss_name sp)) ->
+  exists n, In n nodes /\ nname n = x /\
+    alloc_filter (mlookup m) (round_util (arg_or (ps_args p) 1 0)) (round_util (arg_or (ps_args p) 2 0)) n = true.
+Proof. exact law_eligible_config_sound. Qed.
+Print Assumptions C17_law_eligible_config_sound.
+
 (* --- "taken in descending weighted score order", against the whole object --- *)
 
 (* which nodes, in which order: the shard of scheduler [sp] IS the selector
@@ -170,8 +258,7 @@ Print Assumptions C17_law_order_tol_model.
    filters and were not taken by the schedulers configured before it — for every
    cluster size ([assignments] takes the batched path above 50 nodes) *)
 Theorem C17_shard_exact : forall nodes m specs res pre sp post,
-  assignments nodes m specs = Some res ->
-  NoDup (map ss_name specs) -> specs = pre ++ sp :: post ->
+  assignments nodes m specs = Some res -> specs = pre ++ sp :: post ->
   let ch := chain_of specs (ss_name sp) in
   In (ss_name sp, rlookup res (ss_name sp)) res /\
   rlookup res (ss_name sp) =
@@ -179,7 +266,7 @@ Theorem C17_shard_exact : forall nodes m specs res pre sp post,
       (sort_desc (total_score (mlookup m) ch)
         (filter (pass_all (filters_of (mlookup m) ch))
           (drop_assigned nname nodes (taken_from res pre []))))).
-Proof. exact shard_exact. Qed.
+Proof. exact shard_exact_config. Qed.
 Print Assumptions C17_shard_exact.
 
 (* no higher-scored eligible unassigned node was skipped: a node that passes the
@@ -187,13 +274,13 @@ Print Assumptions C17_shard_exact.
    of the shard in (score descending, position in the node list) order *)
 Theorem C17_shard_no_skip : forall nodes m specs res pre sp post p y,
   assignments nodes m specs = Some res ->
-  NoDup (map nname nodes) -> NoDup (map ss_name specs) -> specs = pre ++ sp :: post ->
+  NoDup (map nname nodes) -> specs = pre ++ sp :: post ->
   let ch := chain_of specs (ss_name sp) in
   let l := rlookup res (ss_name sp) in
   In p (eligible_of (mlookup m) ch (indexed nodes) (taken_from res pre [])) -> ~ In (nm p) l ->
   In y (indexed nodes) -> In (nm y) l ->
   precedes (total_score (mlookup m) ch) y p = true.
-Proof. exact shard_no_skip. Qed.
+Proof. exact shard_no_skip_config. Qed.
 Print Assumptions C17_shard_no_skip.
 
 (* --- identical inputs, identical assignments: independence from what Go iterates as a map --- *)
@@ -235,7 +322,10 @@ Theorem C17_node_order_refuted :
 Proof. exact node_order_refuted. Qed.
 Print Assumptions C17_node_order_refuted.
 
-(* statelessness across reconciles: on one manager, the k-th reconcile of ANY
+(* statelessness across reconciles.  NOTE: in the MODEL this holds by
+   construction ([reconcile] returns the manager unchanged, as the Go manager
+   writes no field after NewShardingManager); its content is the correspondence
+   of selector 5 and law 109 on the real manager.  On one manager, the k-th reconcile of ANY
    history (nodes added / removed / relabelled, metrics changing) returns exactly
    what a fresh manager returns on the k-th input alone *)
 Theorem C17_history_stateless : forall specs steps outs k ns m,
@@ -248,6 +338,69 @@ Theorem C17_history_length : forall specs steps outs,
   history specs steps = Some outs -> length outs = length steps.
 Proof. exact history_length. Qed.
 Print Assumptions C17_history_length.
+
+(* --- publication: the NodeShard objects (applyAssignment / assignmentNeedsUpdate) --- *)
+
+(* for ALL histories: every published shard is the calculated shard of the same
+   scheduler at this or an earlier sync — never anything else *)
+Theorem C17_published_is_earlier_calculation : forall specs steps pubs k pubk e,
+  publish_history specs steps = Some pubs -> nth_error pubs k = Some pubk -> In e pubk ->
+  exists j ns m res, (j <= k)%nat /\ nth_error steps j = Some (ns, m) /\
+                     sync_assignments ns m specs = Some res /\ In e res.
+Proof. exact published_is_earlier_calculation. Qed.
+Print Assumptions C17_published_is_earlier_calculation.
+
+(* a shard that is created or republished shows the current calculation; otherwise it keeps its content *)
+Theorem C17_publish_current : forall pub calc s l,
+  In (s, l) calc ->
+  plookup pub s = None \/ (exists cur, plookup pub s = Some cur /\ needs_update cur l = true) ->
+  In (s, l) (publish pub calc).
+Proof. exact publish_current. Qed.
+Print Assumptions C17_publish_current.
+
+Theorem C17_publish_kept : forall pub calc s l cur,
+  In (s, l) calc -> plookup pub s = Some cur -> needs_update cur l = false -> In (s, cur) (publish pub calc).
+Proof. exact publish_kept. Qed.
+Print Assumptions C17_publish_kept.
+
+(* assignmentNeedsUpdate exactly: a different count, or at least max(1, len/10) NEW nodes *)
+Theorem C17_needs_update_spec : forall p c,
+  needs_update p c = true <->
+  length p <> length c \/ (Nat.max 1 (length c / 10) <= new_count p c)%nat.
+Proof. exact needs_update_spec. Qed.
+Print Assumptions C17_needs_update_spec.
+
+(* below 20 nodes any new node republishes the shard ... *)
+Theorem C17_needs_update_small : forall p c,
+  (length c < 20)%nat ->
+  (needs_update p c = true <-> length p <> length c \/ (1 <= new_count p c)%nat).
+Proof. exact needs_update_small. Qed.
+Print Assumptions C17_needs_update_small.
+
+(* ... from 20 nodes on a single swapped node never does (in general: fewer than len/10 swapped nodes) *)
+Theorem C17_needs_update_single_swap_missed : forall p c,
+  length p = length c -> (20 <= length c)%nat -> new_count p c = 1%nat -> needs_update p c = false.
+Proof. exact needs_update_single_swap_missed. Qed.
+Print Assumptions C17_needs_update_single_swap_missed.
+
+Theorem C17_needs_update_below_threshold : forall p c,
+  length p = length c -> (new_count p c < Nat.max 1 (length c / 10))%nat -> needs_update p c = false.
+Proof. exact needs_update_below_threshold. Qed.
+Print Assumptions C17_needs_update_below_threshold.
+
+(* hence the published shards are NOT always disjoint / eligible: known finding
+   C17-publish-hysteresis-keeps-stale-node (22 nodes, two schedulers, one node moves) *)
+Theorem C17_published_disjoint_eligible_refuted :
+  exists p1 p2 l1 l2,
+    publish_history hyst_specs hyst_steps = Some [p1; p2] /\
+    In (1, l1) p2 /\ In (2, l2) p2 /\ In 1%positive l1 /\ In 1%positive l2 /\
+    alloc_filter (mlookup (hyst_metrics 900 300)) 0 60 {| nname := 1; nwarm := false |} = false /\
+    law_disjoint p2 = false /\
+    law_eligible (plain_nodes 22) (hyst_metrics 900 300) hyst_specs p2 = false /\
+    sync_assignments (plain_nodes 22) (hyst_metrics 900 300) hyst_specs =
+      Some [(1, map Pos.of_nat (seq 2 20)); (2, [1; 22]%positive)].
+Proof. exact published_disjoint_eligible_refuted. Qed.
+Print Assumptions C17_published_disjoint_eligible_refuted.
 
 (* --- the batched path as it was before the fix (F6): refuted --- *)
 Theorem C17_bounded_old_batched_refuted :
